@@ -1,8 +1,1074 @@
-//! W-gen (stub until the generator lands)
+//! W-gen: the fragment AST (structs, traits, impls, goals of C01), its renderer to chalk syntax,
+//! a parser for exactly that fragment (so any world text — generated, harvested or hand-written —
+//! that parses is "in the fragment" and can be judged by `Ref`), and the seeded generator.
+
 use crate::rng::Rng;
 use crate::world::World;
+use std::collections::BTreeMap;
+
+#[derive(Clone, Debug, PartialEq, Eq, PartialOrd, Ord, Hash)]
+pub enum Ty {
+    Adt(String, Vec<Ty>),
+    /// type parameter / quantified variable, by name
+    Var(String),
+    /// skolem introduced by `forall` during evaluation
+    Sk(u32),
+}
+
+impl Ty {
+    pub fn size(&self) -> usize {
+        match self {
+            Ty::Adt(_, a) => 1 + a.iter().map(|x| x.size()).sum::<usize>(),
+            _ => 1,
+        }
+    }
+    pub fn show(&self) -> String {
+        match self {
+            Ty::Adt(n, a) if a.is_empty() => n.clone(),
+            Ty::Adt(n, a) => format!("{}<{}>", n, a.iter().map(|x| x.show()).collect::<Vec<_>>().join(", ")),
+            Ty::Var(v) => v.clone(),
+            Ty::Sk(i) => format!("!{}", i),
+        }
+    }
+    pub fn subst(&self, m: &BTreeMap<String, Ty>) -> Ty {
+        match self {
+            Ty::Var(v) => m.get(v).cloned().unwrap_or_else(|| self.clone()),
+            Ty::Adt(n, a) => Ty::Adt(n.clone(), a.iter().map(|x| x.subst(m)).collect()),
+            Ty::Sk(_) => self.clone(),
+        }
+    }
+    pub fn has_var(&self) -> bool {
+        match self {
+            Ty::Var(_) => true,
+            Ty::Adt(_, a) => a.iter().any(|x| x.has_var()),
+            Ty::Sk(_) => false,
+        }
+    }
+    pub fn vars(&self, out: &mut Vec<String>) {
+        match self {
+            Ty::Var(v) => {
+                if !out.contains(v) {
+                    out.push(v.clone())
+                }
+            }
+            Ty::Adt(_, a) => a.iter().for_each(|x| x.vars(out)),
+            Ty::Sk(_) => {}
+        }
+    }
+    pub fn is_strict_subterm_of(&self, other: &Ty) -> bool {
+        match other {
+            Ty::Adt(_, a) => a.iter().any(|x| x == self || self.is_strict_subterm_of(x)),
+            _ => false,
+        }
+    }
+}
+
+/// one-way matching: bind pattern variables so that pat == t
+pub fn match_ty(pat: &Ty, t: &Ty, m: &mut BTreeMap<String, Ty>) -> bool {
+    match pat {
+        Ty::Var(v) => {
+            if let Some(prev) = m.get(v) {
+                prev == t
+            } else {
+                m.insert(v.clone(), t.clone());
+                true
+            }
+        }
+        Ty::Adt(n, a) => match t {
+            Ty::Adt(n2, a2) if n == n2 && a.len() == a2.len() => a.iter().zip(a2.iter()).all(|(p, x)| match_ty(p, x, m)),
+            _ => false,
+        },
+        Ty::Sk(_) => pat == t,
+    }
+}
+
+#[derive(Clone, Debug, PartialEq, Eq, PartialOrd, Ord, Hash)]
+pub struct Pred {
+    pub ty: Ty,
+    pub tr: String,
+    pub args: Vec<Ty>,
+}
+impl Pred {
+    pub fn show(&self) -> String {
+        if self.args.is_empty() {
+            format!("{}: {}", self.ty.show(), self.tr)
+        } else {
+            format!("{}: {}<{}>", self.ty.show(), self.tr, self.args.iter().map(|a| a.show()).collect::<Vec<_>>().join(", "))
+        }
+    }
+    pub fn subst(&self, m: &BTreeMap<String, Ty>) -> Pred {
+        Pred { ty: self.ty.subst(m), tr: self.tr.clone(), args: self.args.iter().map(|a| a.subst(m)).collect() }
+    }
+    pub fn has_var(&self) -> bool {
+        self.ty.has_var() || self.args.iter().any(|a| a.has_var())
+    }
+}
+
+#[derive(Clone, Debug, PartialEq)]
+pub struct AdtDecl {
+    pub name: String,
+    pub params: Vec<String>,
+    pub fields: Vec<Ty>,
+}
+#[derive(Clone, Copy, Debug, PartialEq, Eq)]
+pub enum TraitKind {
+    Ind,
+    Co,
+    Auto,
+}
+#[derive(Clone, Debug, PartialEq)]
+pub struct TraitDecl {
+    pub name: String,
+    pub params: Vec<String>,
+    pub kind: TraitKind,
+    /// where-clauses on `Self` and on the trait's own parameters
+    pub wcs: Vec<Pred>,
+}
+#[derive(Clone, Debug, PartialEq)]
+pub struct ImplDecl {
+    pub params: Vec<String>,
+    pub tr: String,
+    pub args: Vec<Ty>,
+    pub self_ty: Ty,
+    pub wcs: Vec<Pred>,
+    pub positive: bool,
+}
+#[derive(Clone, Debug, PartialEq)]
+pub enum Item {
+    Adt(AdtDecl),
+    Trait(TraitDecl),
+    Impl(ImplDecl),
+}
+
+#[derive(Clone, Debug, Default, PartialEq)]
+pub struct Prog {
+    pub items: Vec<Item>,
+}
+impl Prog {
+    pub fn adts(&self) -> impl Iterator<Item = &AdtDecl> {
+        self.items.iter().filter_map(|i| if let Item::Adt(a) = i { Some(a) } else { None })
+    }
+    pub fn traits(&self) -> impl Iterator<Item = &TraitDecl> {
+        self.items.iter().filter_map(|i| if let Item::Trait(a) = i { Some(a) } else { None })
+    }
+    pub fn impls(&self) -> impl Iterator<Item = &ImplDecl> {
+        self.items.iter().filter_map(|i| if let Item::Impl(a) = i { Some(a) } else { None })
+    }
+    pub fn adt(&self, n: &str) -> Option<&AdtDecl> {
+        self.adts().find(|a| a.name == n)
+    }
+    pub fn tr(&self, n: &str) -> Option<&TraitDecl> {
+        self.traits().find(|a| a.name == n)
+    }
+}
+
+#[derive(Clone, Debug, PartialEq)]
+pub enum Goal {
+    Pred(Pred),
+    Eq(Ty, Ty),
+    And(Vec<Goal>),
+    Forall(Vec<String>, Box<Goal>),
+    Exists(Vec<String>, Box<Goal>),
+    Not(Box<Goal>),
+    If(Vec<Pred>, Box<Goal>),
+}
+
+impl Goal {
+    pub fn show(&self) -> String {
+        match self {
+            Goal::Pred(p) => p.show(),
+            Goal::Eq(a, b) => format!("{} = {}", a.show(), b.show()),
+            Goal::And(v) => v.iter().map(|g| if matches!(g, Goal::And(_)) { format!("({})", g.show()) } else { g.show() }).collect::<Vec<_>>().join(", "),
+            Goal::Forall(vs, g) => format!("forall<{}> {{ {} }}", vs.join(", "), g.show()),
+            Goal::Exists(vs, g) => format!("exists<{}> {{ {} }}", vs.join(", "), g.show()),
+            Goal::Not(g) => format!("not {{ {} }}", g.show()),
+            Goal::If(hs, g) => format!("if ({}) {{ {} }}", hs.iter().map(|h| h.show()).collect::<Vec<_>>().join("; "), g.show()),
+        }
+    }
+    pub fn has_exists(&self) -> bool {
+        match self {
+            Goal::Exists(..) => true,
+            Goal::And(v) => v.iter().any(|g| g.has_exists()),
+            Goal::Forall(_, g) | Goal::Not(g) | Goal::If(_, g) => g.has_exists(),
+            _ => false,
+        }
+    }
+    pub fn preds(&self, out: &mut Vec<Pred>) {
+        match self {
+            Goal::Pred(p) => out.push(p.clone()),
+            Goal::And(v) => v.iter().for_each(|g| g.preds(out)),
+            Goal::Forall(_, g) | Goal::Exists(_, g) | Goal::Not(g) => g.preds(out),
+            Goal::If(hs, g) => {
+                out.extend(hs.iter().cloned());
+                g.preds(out)
+            }
+            Goal::Eq(..) => {}
+        }
+    }
+}
+
+// ------------------------------------------------------------------ rendering
+
+pub fn render_item(i: &Item) -> String {
+    let wc = |w: &Vec<Pred>| if w.is_empty() { String::new() } else { format!("where {} ", w.iter().map(|p| p.show()).collect::<Vec<_>>().join(", ")) };
+    let gen = |p: &Vec<String>| if p.is_empty() { String::new() } else { format!("<{}>", p.join(", ")) };
+    match i {
+        Item::Adt(a) => format!(
+            "struct {}{} {{ {} }}",
+            a.name,
+            gen(&a.params),
+            a.fields.iter().enumerate().map(|(i, f)| format!("f{}: {}", i, f.show())).collect::<Vec<_>>().join(", ")
+        ),
+        Item::Trait(t) => format!(
+            "{}trait {}{} {}{{ }}",
+            match t.kind {
+                TraitKind::Ind => "",
+                TraitKind::Co => "#[coinductive] ",
+                TraitKind::Auto => "#[auto] ",
+            },
+            t.name,
+            gen(&t.params),
+            wc(&t.wcs)
+        ),
+        Item::Impl(im) => format!(
+            "impl{} {}{}{} for {} {}{{ }}",
+            gen(&im.params),
+            if im.positive { "" } else { "!" },
+            im.tr,
+            if im.args.is_empty() { String::new() } else { format!("<{}>", im.args.iter().map(|a| a.show()).collect::<Vec<_>>().join(", ")) },
+            im.self_ty.show(),
+            wc(&im.wcs)
+        ),
+    }
+}
+
+// ------------------------------------------------------------------ parser (fragment only)
+
+#[derive(Clone, Debug, PartialEq)]
+enum Tok {
+    Id(String),
+    P(char),
+}
+
+fn lex(s: &str) -> Result<Vec<Tok>, String> {
+    let mut out = vec![];
+    let cs: Vec<char> = s.chars().collect();
+    let mut i = 0;
+    while i < cs.len() {
+        let c = cs[i];
+        if c.is_whitespace() {
+            i += 1;
+        } else if c.is_alphabetic() || c == '_' {
+            let st = i;
+            while i < cs.len() && (cs[i].is_alphanumeric() || cs[i] == '_') {
+                i += 1;
+            }
+            out.push(Tok::Id(cs[st..i].iter().collect()));
+        } else if "<>{}(),:;=!#[]".contains(c) {
+            out.push(Tok::P(c));
+            i += 1;
+        } else {
+            return Err(format!("character `{}` is outside the fragment", c));
+        }
+    }
+    Ok(out)
+}
+
+struct Parser<'a> {
+    t: Vec<Tok>,
+    i: usize,
+    /// declared ADTs (name -> arity) and traits (name -> number of parameters)
+    adts: &'a BTreeMap<String, usize>,
+    traits: &'a BTreeMap<String, usize>,
+    /// existentially bound variables in scope (hypotheses must not mention them)
+    evars: Vec<String>,
+}
+
+const KEYWORDS: &[&str] = &["struct", "trait", "impl", "for", "where", "forall", "exists", "not", "if", "enum", "fn", "dyn", "type", "opaque", "closure", "coroutine", "extern", "const", "compatible", "Self"];
+
+impl<'a> Parser<'a> {
+    fn peek(&self) -> Option<&Tok> {
+        self.t.get(self.i)
+    }
+    fn eat_p(&mut self, c: char) -> bool {
+        if self.peek() == Some(&Tok::P(c)) {
+            self.i += 1;
+            true
+        } else {
+            false
+        }
+    }
+    fn expect_p(&mut self, c: char) -> Result<(), String> {
+        if self.eat_p(c) {
+            Ok(())
+        } else {
+            Err(format!("expected `{}` at token {} ({:?})", c, self.i, self.peek()))
+        }
+    }
+    fn eat_kw(&mut self, k: &str) -> bool {
+        if let Some(Tok::Id(s)) = self.peek() {
+            if s == k {
+                self.i += 1;
+                return true;
+            }
+        }
+        false
+    }
+    fn ident(&mut self) -> Result<String, String> {
+        match self.peek().cloned() {
+            Some(Tok::Id(s)) => {
+                self.i += 1;
+                Ok(s)
+            }
+            other => Err(format!("expected identifier, found {:?}", other)),
+        }
+    }
+    fn generics(&mut self) -> Result<Vec<String>, String> {
+        let mut v = vec![];
+        if self.eat_p('<') {
+            loop {
+                if self.eat_p('>') {
+                    break;
+                }
+                let id = self.ident()?;
+                if KEYWORDS.contains(&id.as_str()) {
+                    return Err(format!("`{}` in generics is outside the fragment", id));
+                }
+                v.push(id);
+                if !self.eat_p(',') {
+                    self.expect_p('>')?;
+                    break;
+                }
+            }
+        }
+        Ok(v)
+    }
+    fn ty(&mut self, scope: &[String]) -> Result<Ty, String> {
+        let id = self.ident()?;
+        if scope.contains(&id) {
+            return Ok(Ty::Var(id));
+        }
+        if let Some(&ar) = self.adts.get(&id) {
+            let mut args = vec![];
+            if self.eat_p('<') {
+                loop {
+                    if self.eat_p('>') {
+                        break;
+                    }
+                    args.push(self.ty(scope)?);
+                    if !self.eat_p(',') {
+                        self.expect_p('>')?;
+                        break;
+                    }
+                }
+            }
+            if args.len() != ar {
+                return Err(format!("`{}` applied to {} arguments, declared with {}", id, args.len(), ar));
+            }
+            return Ok(Ty::Adt(id, args));
+        }
+        Err(format!("type `{}` is outside the fragment (not a declared struct or a variable in scope)", id))
+    }
+    fn pred_after_ty(&mut self, ty: Ty, scope: &[String]) -> Result<Pred, String> {
+        self.expect_p(':')?;
+        let tr = self.ident()?;
+        let np = *self.traits.get(&tr).ok_or_else(|| format!("trait `{}` is not declared in the fragment", tr))?;
+        let mut args = vec![];
+        if self.eat_p('<') {
+            loop {
+                if self.eat_p('>') {
+                    break;
+                }
+                args.push(self.ty(scope)?);
+                if !self.eat_p(',') {
+                    self.expect_p('>')?;
+                    break;
+                }
+            }
+        }
+        if args.len() != np {
+            return Err(format!("trait `{}` applied to {} arguments, declared with {}", tr, args.len(), np));
+        }
+        Ok(Pred { ty, tr, args })
+    }
+    fn pred(&mut self, scope: &[String]) -> Result<Pred, String> {
+        let t = self.ty(scope)?;
+        self.pred_after_ty(t, scope)
+    }
+    fn where_clauses(&mut self, scope: &[String]) -> Result<Vec<Pred>, String> {
+        let mut v = vec![];
+        if self.eat_kw("where") {
+            loop {
+                if self.peek() == Some(&Tok::P('{')) {
+                    break;
+                }
+                v.push(self.pred(scope)?);
+                if !self.eat_p(',') {
+                    break;
+                }
+            }
+        }
+        Ok(v)
+    }
+    fn goal(&mut self, scope: &[String]) -> Result<Goal, String> {
+        let mut parts = vec![self.goal1(scope)?];
+        while self.eat_p(',') {
+            parts.push(self.goal1(scope)?);
+        }
+        Ok(if parts.len() == 1 { parts.pop().unwrap() } else { Goal::And(parts) })
+    }
+    fn goal1(&mut self, scope: &[String]) -> Result<Goal, String> {
+        if self.eat_p('(') {
+            let g = self.goal(scope)?;
+            self.expect_p(')')?;
+            return Ok(g);
+        }
+        let is_forall = self.eat_kw("forall");
+        let is_exists = !is_forall && self.eat_kw("exists");
+        if is_forall || is_exists {
+            let vs = self.generics()?;
+            if vs.is_empty() {
+                return Err("quantifier without variables".into());
+            }
+            self.expect_p('{')?;
+            let mut sc = scope.to_vec();
+            sc.extend(vs.iter().cloned());
+            if is_exists {
+                self.evars.extend(vs.iter().cloned());
+            }
+            let g = self.goal(&sc)?;
+            self.expect_p('}')?;
+            return Ok(if is_forall { Goal::Forall(vs, Box::new(g)) } else { Goal::Exists(vs, Box::new(g)) });
+        }
+        if self.eat_kw("not") {
+            self.expect_p('{')?;
+            // the fragment has `not` only around goals without unknown or universally quantified types
+            // (chalk reads negation over `forall` variables universally; the properties avoid the question)
+            let g = self.goal(&[])?;
+            self.expect_p('}')?;
+            return Ok(Goal::Not(Box::new(g)));
+        }
+        if self.eat_kw("if") {
+            self.expect_p('(')?;
+            let mut hs = vec![self.pred(scope)?];
+            while self.eat_p(';') {
+                hs.push(self.pred(scope)?);
+            }
+            self.expect_p(')')?;
+            // the fragment's hypotheses speak about concrete or universally quantified types only
+            let mut hv = vec![];
+            for h in &hs {
+                h.ty.vars(&mut hv);
+                h.args.iter().for_each(|a| a.vars(&mut hv));
+            }
+            if hv.iter().any(|v| self.evars.contains(v)) {
+                return Err("hypothesis mentions an unknown (existential) type: outside the fragment".into());
+            }
+            self.expect_p('{')?;
+            let g = self.goal(scope)?;
+            self.expect_p('}')?;
+            return Ok(Goal::If(hs, Box::new(g)));
+        }
+        let t = self.ty(scope)?;
+        if self.eat_p('=') {
+            let b = self.ty(scope)?;
+            return Ok(Goal::Eq(t, b));
+        }
+        Ok(Goal::Pred(self.pred_after_ty(t, scope)?))
+    }
+}
+
+/// Parse a world's items and goals; Err = the world is outside the C01 fragment.
+pub fn parse_world(w: &World) -> Result<(Prog, Vec<Result<Goal, String>>), String> {
+    // pass 1: declarations
+    let mut adts = BTreeMap::new();
+    let mut traits = BTreeMap::new();
+    let mut toks = vec![];
+    for it in &w.items {
+        let t = lex(it)?;
+        let mut i = 0;
+        // skip attributes
+        while t.get(i) == Some(&Tok::P('#')) {
+            while i < t.len() && t[i] != Tok::P(']') {
+                i += 1;
+            }
+            i += 1;
+        }
+        match t.get(i) {
+            Some(Tok::Id(k)) if k == "struct" || k == "trait" => {
+                let name = match t.get(i + 1) {
+                    Some(Tok::Id(n)) => n.clone(),
+                    _ => return Err("item without a name".into()),
+                };
+                let mut n = 0;
+                if t.get(i + 2) == Some(&Tok::P('<')) {
+                    let mut j = i + 3;
+                    while j < t.len() && t[j] != Tok::P('>') {
+                        if let Tok::Id(_) = t[j] {
+                            n += 1;
+                        }
+                        j += 1;
+                    }
+                }
+                if k == "struct" {
+                    adts.insert(name, n);
+                } else {
+                    traits.insert(name, n);
+                }
+            }
+            Some(Tok::Id(k)) if k == "impl" => {}
+            other => return Err(format!("item starting with {:?} is outside the fragment", other)),
+        }
+        toks.push(t);
+    }
+    let mut prog = Prog::default();
+    for t in toks {
+        let mut p = Parser { t, i: 0, adts: &adts, traits: &traits, evars: vec![] };
+        let mut kind = TraitKind::Ind;
+        while p.eat_p('#') {
+            p.expect_p('[')?;
+            let a = p.ident()?;
+            match a.as_str() {
+                "coinductive" => kind = TraitKind::Co,
+                "auto" => kind = TraitKind::Auto,
+                other => return Err(format!("attribute `{}` is outside the fragment", other)),
+            }
+            p.expect_p(']')?;
+        }
+        if p.eat_kw("struct") {
+            let name = p.ident()?;
+            let params = p.generics()?;
+            if matches!(p.peek(), Some(Tok::Id(s)) if s == "where") {
+                return Err("struct where-clauses are outside the fragment".into());
+            }
+            p.expect_p('{')?;
+            let mut fields = vec![];
+            loop {
+                if p.eat_p('}') {
+                    break;
+                }
+                let _f = p.ident()?;
+                p.expect_p(':')?;
+                fields.push(p.ty(&params)?);
+                if !p.eat_p(',') {
+                    p.expect_p('}')?;
+                    break;
+                }
+            }
+            prog.items.push(Item::Adt(AdtDecl { name, params, fields }));
+        } else if p.eat_kw("trait") {
+            let name = p.ident()?;
+            let params = p.generics()?;
+            let mut scope = params.clone();
+            scope.push("Self".into());
+            let wcs = p.where_clauses(&scope)?;
+            p.expect_p('{')?;
+            p.expect_p('}')?;
+            prog.items.push(Item::Trait(TraitDecl { name, params, kind, wcs }));
+        } else if p.eat_kw("impl") {
+            let params = p.generics()?;
+            let positive = !p.eat_p('!');
+            let tr = p.ident()?;
+            let np = *traits.get(&tr).ok_or_else(|| format!("impl of undeclared trait `{}`", tr))?;
+            let mut args = vec![];
+            if p.eat_p('<') {
+                loop {
+                    if p.eat_p('>') {
+                        break;
+                    }
+                    args.push(p.ty(&params)?);
+                    if !p.eat_p(',') {
+                        p.expect_p('>')?;
+                        break;
+                    }
+                }
+            }
+            if args.len() != np {
+                return Err("trait arity mismatch in impl".into());
+            }
+            if !p.eat_kw("for") {
+                return Err("expected `for`".into());
+            }
+            let self_ty = p.ty(&params)?;
+            let wcs = p.where_clauses(&params)?;
+            p.expect_p('{')?;
+            p.expect_p('}')?;
+            // impl parameters must all appear in the header (Rust's rule, and the fragment's)
+            let mut used = vec![];
+            self_ty.vars(&mut used);
+            args.iter().for_each(|a| a.vars(&mut used));
+            if params.iter().any(|q| !used.contains(q)) {
+                return Err("impl parameter not in the impl header".into());
+            }
+            prog.items.push(Item::Impl(ImplDecl { params, tr, args, self_ty, wcs, positive }));
+        } else {
+            return Err("unknown item".into());
+        }
+        if p.i != p.t.len() {
+            return Err("trailing tokens after item".into());
+        }
+    }
+    let goals = w
+        .goals
+        .iter()
+        .map(|g| {
+            let t = lex(g)?;
+            let mut p = Parser { t, i: 0, adts: &adts, traits: &traits, evars: vec![] };
+            let goal = p.goal(&[])?;
+            if p.i != p.t.len() {
+                return Err("trailing tokens after goal".into());
+            }
+            Ok(goal)
+        })
+        .collect();
+    Ok((prog, goals))
+}
+
+/// Is the whole world (program and at least one goal) inside the C01 fragment?
+pub fn in_fragment(w: &World) -> bool {
+    match parse_world(w) {
+        Ok((p, goals)) => shape_ok(&p) && goals.iter().any(|g| g.is_ok()),
+        Err(_) => false,
+    }
+}
+
+/// Fragment side conditions that are not syntactic: no mixed inductive/coinductive dependencies
+/// (coinductive/auto impls depend only on coinductive/auto goals).
+pub fn shape_ok(p: &Prog) -> bool {
+    for im in p.impls() {
+        let k = match p.tr(&im.tr) {
+            Some(t) => t.kind,
+            None => return false,
+        };
+        if k != TraitKind::Ind {
+            for w in &im.wcs {
+                match p.tr(&w.tr) {
+                    Some(t) if t.kind != TraitKind::Ind => {}
+                    _ => return false,
+                }
+            }
+        }
+    }
+    // auto traits: no parameters, no where-clauses
+    p.traits().all(|t| t.kind != TraitKind::Auto || (t.params.is_empty() && t.wcs.is_empty()))
+}
+
+// ------------------------------------------------------------------ generator
 
 #[derive(Clone, Copy, Debug, PartialEq)]
-pub enum Profile { Any, Fragment }
-pub fn available() -> bool { false }
-pub fn gen_world(_rng: &mut Rng, _p: Profile) -> World { unreachable!() }
+pub enum Profile {
+    /// default mix
+    Any,
+    /// same as Any (every generated world is in the fragment); kept for call-site clarity
+    Fragment,
+    /// auto / coinductive traits, recursive ADTs, negative impls, closed goals on concrete types
+    Coinductive,
+    /// supertrait hierarchies, goals under hypotheses
+    Hyp,
+    /// growth restrictions inverted (C09 only)
+    Wild,
+}
+
+pub fn available() -> bool {
+    true
+}
+
+struct Feats {
+    co: bool,
+    auto: bool,
+    neg: bool,
+    sup: bool,
+    blanket: bool,
+    overlap: bool,
+    grow: bool,
+    params: bool,
+    cycles: bool,
+    decreasing: bool,
+}
+
+pub struct GenOut {
+    pub prog: Prog,
+    pub goals: Vec<Goal>,
+}
+
+fn rand_ty(rng: &mut Rng, ar: &[(String, usize)], depth: usize, params: &[String], allow_params: bool) -> Ty {
+    if !params.is_empty() && allow_params && rng.coin(40) {
+        return Ty::Var(rng.pick(params).clone());
+    }
+    let zero: Vec<&(String, usize)> = ar.iter().filter(|a| a.1 == 0).collect();
+    let (n, k) = if depth == 0 { (*rng.pick(&zero)).clone() } else { rng.pick(ar).clone() };
+    Ty::Adt(n, (0..k).map(|_| rand_ty(rng, ar, depth.saturating_sub(1), params, allow_params)).collect())
+}
+
+pub fn gen(rng: &mut Rng, profile: Profile) -> GenOut {
+    let wild = profile == Profile::Wild;
+    let coind = profile == Profile::Coinductive;
+    let hyp = profile == Profile::Hyp;
+    let f = Feats {
+        co: coind || rng.coin(50),
+        auto: coind || rng.coin(50),
+        neg: rng.coin(50),
+        sup: hyp || rng.coin(50),
+        blanket: rng.coin(50),
+        overlap: rng.coin(35),
+        grow: wild || rng.coin(25),
+        params: rng.coin(50),
+        cycles: wild || coind || rng.coin(50),
+        decreasing: !wild && rng.coin(80),
+    };
+    // ADTs
+    let nad = rng.range(2, 4);
+    let mut ar: Vec<(String, usize)> = vec![];
+    for (i, n) in ["A", "B", "C", "D"].iter().take(nad).enumerate() {
+        ar.push((n.to_string(), if i < 2 { 0 } else { *rng.pick(&[0usize, 1, 1, 2]) }));
+    }
+    for n in ["V", "W"].iter().take(rng.range(1, 2)) {
+        ar.push((n.to_string(), if *n == "V" { 1 } else { *rng.pick(&[1usize, 2]) }));
+    }
+    let mut prog = Prog::default();
+    for (n, k) in &ar {
+        let params: Vec<String> = (0..*k).map(|i| format!("T{}", i)).collect();
+        let mut fields = vec![];
+        for _ in 0..rng.range(0, 2) {
+            fields.push(rand_ty(rng, &ar, 1, &params, true));
+        }
+        if rng.coin(if coind { 45 } else { 30 }) {
+            fields.push(Ty::Adt(n.clone(), params.iter().map(|p| Ty::Var(p.clone())).collect()));
+        }
+        if rng.coin(if coind { 40 } else { 20 }) {
+            let (o, ok) = rng.pick(&ar).clone();
+            fields.push(Ty::Adt(o, (0..ok).map(|_| rand_ty(rng, &ar, 0, &params, true)).collect()));
+        }
+        prog.items.push(Item::Adt(AdtDecl { name: n.clone(), params, fields }));
+    }
+    // traits
+    let ntr = rng.range(2, 4);
+    let mut traits: Vec<TraitDecl> = vec![];
+    for tn in ["Foo", "Bar", "Baz", "Qux"].iter().take(ntr) {
+        let kind = if f.co && rng.coin(if coind { 60 } else { 35 }) { TraitKind::Co } else { TraitKind::Ind };
+        let np = if f.params && rng.coin(30) { 1 } else { 0 };
+        traits.push(TraitDecl { name: tn.to_string(), params: (0..np).map(|i| format!("P{}", i)).collect(), kind, wcs: vec![] });
+    }
+    if f.auto {
+        traits.push(TraitDecl { name: "Send".into(), params: vec![], kind: TraitKind::Auto, wcs: vec![] });
+        if coind && rng.coin(40) {
+            traits.push(TraitDecl { name: "Sync".into(), params: vec![], kind: TraitKind::Auto, wcs: vec![] });
+        }
+    }
+    if f.sup {
+        let names: Vec<(String, usize, TraitKind)> = traits.iter().map(|t| (t.name.clone(), t.params.len(), t.kind)).collect();
+        for t in traits.iter_mut() {
+            if t.kind == TraitKind::Auto {
+                continue;
+            }
+            for _ in 0..rng.range(0, if hyp { 3 } else { 2 }) {
+                let cands: Vec<&(String, usize, TraitKind)> = names.iter().filter(|x| x.0 != t.name && x.2 != TraitKind::Auto).collect();
+                if cands.is_empty() {
+                    continue;
+                }
+                let tgt = (*rng.pick(&cands)).clone();
+                let subj = if t.params.is_empty() || rng.coin(70) { Ty::Var("Self".into()) } else { Ty::Var(t.params[0].clone()) };
+                let args = (0..tgt.1)
+                    .map(|_| if rng.coin(50) || t.params.is_empty() { rand_ty(rng, &ar, 0, &[], false) } else { Ty::Var(t.params[0].clone()) })
+                    .collect();
+                let p = Pred { ty: subj, tr: tgt.0.clone(), args };
+                if !t.wcs.contains(&p) {
+                    t.wcs.push(p);
+                }
+            }
+        }
+    }
+    let trait_info: Vec<(String, usize, TraitKind)> = traits.iter().map(|t| (t.name.clone(), t.params.len(), t.kind)).collect();
+    for t in traits {
+        prog.items.push(Item::Trait(t));
+    }
+    // impls
+    let mut impls: Vec<ImplDecl> = vec![];
+    for _ in 0..rng.range(2, 8) {
+        let (tn, tnp, tk) = rng.pick(&trait_info).clone();
+        let np = *rng.pick(&[0usize, 0, 1, 1, 2]);
+        let params: Vec<String> = (0..np).map(|i| format!("T{}", i)).collect();
+        let coish = tk != TraitKind::Ind;
+        let mut self_ty = if f.blanket && np >= 1 && rng.coin(if coind && tk == TraitKind::Co { 4 } else { 20 }) && tk != TraitKind::Auto {
+            Ty::Var(params[0].clone())
+        } else {
+            rand_ty(rng, &ar, 2, &params, true)
+        };
+        if let (Ty::Var(_), false) = (&self_ty, f.blanket && tk != TraitKind::Auto) {
+            self_ty = Ty::Adt("V".into(), vec![self_ty]);
+        }
+        if tk == TraitKind::Auto {
+            if let Ty::Var(_) = self_ty {
+                self_ty = Ty::Adt("V".into(), vec![self_ty]);
+            }
+        }
+        let args: Vec<Ty> = (0..tnp).map(|_| rand_ty(rng, &ar, 1, &params, true)).collect();
+        let mut used = vec![];
+        self_ty.vars(&mut used);
+        args.iter().for_each(|a| a.vars(&mut used));
+        let params: Vec<String> = params.into_iter().filter(|p| used.contains(p)).collect();
+        let positive = !(tk == TraitKind::Auto && f.neg && rng.coin(40));
+        let mut wcs = vec![];
+        if positive {
+            for _ in 0..rng.range(0, 2) {
+                let cands: Vec<&(String, usize, TraitKind)> = if coish { trait_info.iter().filter(|x| x.2 != TraitKind::Ind).collect() } else { trait_info.iter().collect() };
+                if cands.is_empty() {
+                    continue;
+                }
+                let (wt, wnp, _) = (*rng.pick(&cands)).clone();
+                let mut opts: Vec<Ty> = params.iter().map(|p| Ty::Var(p.clone())).collect();
+                if let Ty::Adt(_, a) = &self_ty {
+                    opts.extend(a.iter().cloned());
+                }
+                if f.cycles && !f.decreasing {
+                    opts.push(self_ty.clone());
+                }
+                if f.grow && !f.decreasing && rng.coin(if wild { 60 } else { 30 }) {
+                    opts.push(Ty::Adt("V".into(), vec![self_ty.clone()]));
+                }
+                if coind && f.cycles && rng.coin(50) {
+                    // coinductive cycles through concrete types are the point of this profile
+                    opts.push(self_ty.clone());
+                    opts.push(rand_ty(rng, &ar, 1, &params, true));
+                }
+                if opts.is_empty() {
+                    opts.push(rand_ty(rng, &ar, 0, &[], false));
+                }
+                let subj = rng.pick(&opts).clone();
+                let wargs: Vec<Ty> = (0..wnp).map(|_| rand_ty(rng, &ar, 1, &params, true)).collect();
+                if f.decreasing && !coind {
+                    // size-decreasing: every where-clause type is a parameter or a strict subterm of the header
+                    let ok = |t: &Ty| matches!(t, Ty::Var(_)) || t.is_strict_subterm_of(&self_ty) || !t.has_var() && t.size() == 1;
+                    if !ok(&subj) || !wargs.iter().all(|a| ok(a)) {
+                        continue;
+                    }
+                }
+                wcs.push(Pred { ty: subj, tr: wt, args: wargs });
+            }
+        }
+        impls.push(ImplDecl { params, tr: tn, args, self_ty, wcs, positive });
+    }
+    if f.overlap && !impls.is_empty() {
+        let dup = rng.pick(&impls).clone();
+        impls.push(dup);
+    }
+    for im in impls {
+        prog.items.push(Item::Impl(im));
+    }
+    // goals
+    let mut goals = vec![];
+    let ng = rng.range(6, 10);
+    for gi in 0..ng {
+        let closed = coind || gi < ng * 2 / 3 || hyp && gi < ng - 1;
+        goals.push(gen_goal(rng, &prog, &ar, &trait_info, closed, profile));
+    }
+    GenOut { prog, goals }
+}
+
+fn gen_goal(rng: &mut Rng, prog: &Prog, ar: &[(String, usize)], traits: &[(String, usize, TraitKind)], closed: bool, profile: Profile) -> Goal {
+    let tainted = co_tainted(prog);
+    let wild = profile == Profile::Wild;
+    struct Cx<'a> {
+        ar: &'a [(String, usize)],
+        traits: &'a [(String, usize, TraitKind)],
+        ctr: usize,
+        /// goal contains an unknown (exists) somewhere: keep user #[coinductive] traits out (F4/F10) unless wild
+        open: bool,
+        wild: bool,
+        coind: bool,
+        hyp: bool,
+        tainted: Vec<String>,
+        /// existential variables (never used in hypotheses)
+        evars: Vec<String>,
+    }
+    fn ty(rng: &mut Rng, cx: &Cx, depth: usize, scope: &[String]) -> Ty {
+        if !scope.is_empty() && rng.coin(45) {
+            return Ty::Var(rng.pick(scope).clone());
+        }
+        let zero: Vec<&(String, usize)> = cx.ar.iter().filter(|a| a.1 == 0).collect();
+        let (n, k) = if depth == 0 { (*rng.pick(&zero)).clone() } else { rng.pick(cx.ar).clone() };
+        Ty::Adt(n, (0..k).map(|_| ty(rng, cx, depth.saturating_sub(1), scope)).collect())
+    }
+    fn pred(rng: &mut Rng, cx: &Cx, scope: &[String], for_not: bool) -> Pred {
+        let cands: Vec<&(String, usize, TraitKind)> = cx
+            .traits
+            .iter()
+            .filter(|t| {
+                if for_not && (t.2 != TraitKind::Ind || cx.tainted.contains(&t.0)) {
+                    return false; // `not` around predicates that reach coinductive/auto traits: SLG documents this as unsupported
+                }
+                if cx.open && !cx.wild && t.2 == TraitKind::Co {
+                    return false;
+                }
+                true
+            })
+            .collect();
+        if cands.is_empty() {
+            // no admissible trait: fall back to an equality-like trivial predicate on the first trait
+            let t = &cx.traits[0];
+            return Pred { ty: ty(rng, cx, 1, &[]), tr: t.0.clone(), args: (0..t.1).map(|_| ty(rng, cx, 1, &[])).collect() };
+        }
+        let mut t = (*rng.pick(&cands)).clone();
+        if cx.coind && !for_not {
+            let co: Vec<&&(String, usize, TraitKind)> = cands.iter().filter(|t| t.2 != TraitKind::Ind).collect();
+            if !co.is_empty() && rng.coin(80) {
+                t = (**rng.pick(&co)).clone();
+            }
+        }
+        let sc: &[String] = if for_not { &[] } else { scope };
+        Pred { ty: ty(rng, cx, 2, sc), tr: t.0.clone(), args: (0..t.1).map(|_| ty(rng, cx, 1, sc)).collect() }
+    }
+    fn g(rng: &mut Rng, cx: &mut Cx, depth: usize, scope: &[String], under_if: bool) -> Goal {
+        let r = rng.below(100);
+        if cx.coind {
+            // closed goals on concrete types, occasionally conjunctions
+            if depth > 0 && r < 15 {
+                return Goal::And(vec![g(rng, cx, depth - 1, scope, under_if), g(rng, cx, depth - 1, scope, under_if)]);
+            }
+            return Goal::Pred(pred(rng, cx, scope, false));
+        }
+        if depth == 0 || r < 35 {
+            return Goal::Pred(pred(rng, cx, scope, false));
+        }
+        if r < 50 || cx.hyp && r < 60 {
+            cx.ctr += 1;
+            let v = format!("X{}", cx.ctr);
+            let mut sc = scope.to_vec();
+            sc.push(v.clone());
+            return Goal::Forall(vec![v], Box::new(g(rng, cx, depth - 1, &sc, under_if)));
+        }
+        if r < 66 || cx.hyp && r < 85 {
+            let mut hyps = vec![];
+            for _ in 0..rng.range(1, 2) {
+                let cands: Vec<&(String, usize, TraitKind)> = cx.traits.iter().filter(|t| t.2 == TraitKind::Ind || (t.2 == TraitKind::Co && !cx.open && !cx.hyp)).collect();
+                if cands.is_empty() {
+                    continue;
+                }
+                let t = (*rng.pick(&cands)).clone();
+                let uscope: Vec<String> = if cx.wild { scope.to_vec() } else { scope.iter().filter(|v| !cx.evars.contains(v)).cloned().collect() };
+                let hs = if !uscope.is_empty() && rng.coin(80) { Ty::Var(rng.pick(&uscope).clone()) } else { ty(rng, cx, 1, &uscope) };
+                hyps.push(Pred { ty: hs, tr: t.0.clone(), args: (0..t.1).map(|_| ty(rng, cx, 1, &uscope)).collect() });
+            }
+            if hyps.is_empty() {
+                return Goal::Pred(pred(rng, cx, scope, false));
+            }
+            return Goal::If(hyps, Box::new(g(rng, cx, depth - 1, scope, true)));
+        }
+        if r < 74 && !under_if {
+            // `not` only around concrete predicates and never under a hypothesis
+            let p = pred(rng, cx, &[], true);
+            if cx.traits.iter().any(|t| t.0 == p.tr && t.2 == TraitKind::Ind) && !cx.tainted.contains(&p.tr) {
+                return Goal::Not(Box::new(Goal::Pred(p)));
+            }
+            return Goal::Pred(pred(rng, cx, scope, false));
+        }
+        if r < 84 {
+            return Goal::And(vec![g(rng, cx, depth - 1, scope, under_if), g(rng, cx, depth - 1, scope, under_if)]);
+        }
+        if r < 92 {
+            let a = ty(rng, cx, 1, scope);
+            let b = if rng.coin(50) { a.clone() } else { ty(rng, cx, 1, scope) };
+            return Goal::Eq(a, b);
+        }
+        Goal::Pred(pred(rng, cx, scope, false))
+    }
+    let mut cx = Cx { ar, traits, ctr: 0, open: !closed, wild, coind: profile == Profile::Coinductive, hyp: profile == Profile::Hyp, tainted, evars: vec![] };
+    if closed {
+        g(rng, &mut cx, 3, &[], false)
+    } else {
+        let n = if rng.coin(25) { 2 } else { 1 };
+        let vs: Vec<String> = (0..n)
+            .map(|_| {
+                cx.ctr += 1;
+                format!("X{}", cx.ctr)
+            })
+            .collect();
+        cx.evars = vs.clone();
+        let body = g(rng, &mut cx, 2, &vs, false);
+        Goal::Exists(vs, Box::new(body))
+    }
+}
+
+fn unify_ty(a: &Ty, b: &Ty, m: &mut BTreeMap<String, Ty>) -> bool {
+    fn walk(t: &Ty, m: &BTreeMap<String, Ty>) -> Ty {
+        let mut t = t.clone();
+        while let Ty::Var(v) = &t {
+            match m.get(v) {
+                Some(n) => t = n.clone(),
+                None => break,
+            }
+        }
+        t
+    }
+    fn occurs(v: &str, t: &Ty, m: &BTreeMap<String, Ty>) -> bool {
+        match walk(t, m) {
+            Ty::Var(w) => w == v,
+            Ty::Adt(_, a) => a.iter().any(|x| occurs(v, x, m)),
+            Ty::Sk(_) => false,
+        }
+    }
+    let (x, y) = (walk(a, m), walk(b, m));
+    match (&x, &y) {
+        (Ty::Var(v), Ty::Var(w)) if v == w => true,
+        (Ty::Var(v), t) | (t, Ty::Var(v)) => {
+            if occurs(v, t, m) {
+                false
+            } else {
+                m.insert(v.clone(), t.clone());
+                true
+            }
+        }
+        (Ty::Adt(n1, a1), Ty::Adt(n2, a2)) => n1 == n2 && a1.len() == a2.len() && a1.iter().zip(a2.iter()).all(|(p, q)| unify_ty(p, q, m)),
+        (Ty::Sk(i), Ty::Sk(j)) => i == j,
+        _ => false,
+    }
+}
+
+/// do two positive impls of the same trait have unifiable headers (the program is not coherent)?
+pub fn has_overlapping_impls(p: &Prog) -> bool {
+    let impls: Vec<&ImplDecl> = p.impls().filter(|i| i.positive).collect();
+    for i in 0..impls.len() {
+        for j in i + 1..impls.len() {
+            let (a, b) = (impls[i], impls[j]);
+            if a.tr != b.tr {
+                continue;
+            }
+            let ren = |im: &ImplDecl, sfx: &str| -> (Ty, Vec<Ty>) {
+                let m: BTreeMap<String, Ty> = im.params.iter().map(|q| (q.clone(), Ty::Var(format!("{}{}", q, sfx)))).collect();
+                (im.self_ty.subst(&m), im.args.iter().map(|t| t.subst(&m)).collect())
+            };
+            let (sa, aa) = ren(a, "'a");
+            let (sb, ab) = ren(b, "'b");
+            let mut m = BTreeMap::new();
+            if unify_ty(&sa, &sb, &mut m) && aa.iter().zip(ab.iter()).all(|(x, y)| unify_ty(x, y, &mut m)) {
+                return true;
+            }
+        }
+    }
+    false
+}
+
+/// traits whose derivations can reach a coinductive or auto trait (through impl where-clauses)
+pub fn co_tainted(p: &Prog) -> Vec<String> {
+    let mut t: Vec<String> = p.traits().filter(|t| t.kind != TraitKind::Ind).map(|t| t.name.clone()).collect();
+    loop {
+        let mut changed = false;
+        for im in p.impls() {
+            if !t.contains(&im.tr) && im.wcs.iter().any(|w| t.contains(&w.tr)) {
+                t.push(im.tr.clone());
+                changed = true;
+            }
+        }
+        if !changed {
+            return t;
+        }
+    }
+}
+
+pub fn to_world(o: &GenOut) -> World {
+    World { source: "wgen".into(), items: o.prog.items.iter().map(render_item).collect(), goals: o.goals.iter().map(|g| g.show()).collect() }
+}
+
+pub fn gen_world(rng: &mut Rng, p: Profile) -> World {
+    to_world(&gen(rng, p))
+}
